@@ -23,6 +23,7 @@ import (
 	"io"
 	"sort"
 	"strings"
+	"sync/atomic"
 
 	"github.com/go-logr/logr"
 	extv1 "k8s.io/apiextensions-apiserver/pkg/apis/apiextensions/v1"
@@ -30,6 +31,8 @@ import (
 	"k8s.io/apimachinery/pkg/runtime"
 	"k8s.io/apimachinery/pkg/runtime/schema"
 	"k8s.io/apimachinery/pkg/types"
+	kcache "k8s.io/client-go/tools/cache"
+	"sigs.k8s.io/controller-runtime/pkg/cache"
 	"sigs.k8s.io/controller-runtime/pkg/client"
 	kcontroller "sigs.k8s.io/controller-runtime/pkg/controller"
 	"sigs.k8s.io/controller-runtime/pkg/manager"
@@ -73,6 +76,10 @@ type c08Obj struct {
 	Flag   bool       `json:"flag,omitempty"`
 	Inuse  bool       `json:"inuse,omitempty"`
 	Pkgs   []string   `json:"pkgs,omitempty"`
+	// package revisions: spec.desiredState = Inactive / spec.skipDependencyResolution = true.
+	// Whether a revision is in the Lock does not follow from either.
+	Inactive bool `json:"inactive,omitempty"`
+	SkipDeps bool `json:"skipDeps,omitempty"`
 }
 
 type c08Step struct {
@@ -269,6 +276,12 @@ func c08Build(idx int, o c08Obj, all []c08Obj) *unstructured.Unstructured {
 		}
 	case "rev":
 		spec = map[string]any{"image": "example.org/pkg:v1", "revision": int64(1), "desiredState": "Active"}
+		if o.Inactive {
+			spec["desiredState"] = "Inactive"
+		}
+		if o.SkipDeps {
+			spec["skipDependencyResolution"] = true
+		}
 	case "lock":
 		var ps []any
 		for _, p := range o.Pkgs {
@@ -401,7 +414,7 @@ func (w *c08World) snap() c08Snap {
 		s.objs[v.key()] = v
 	}
 	for _, n := range c08CtrlNames() {
-		s.running[n] = w.eng.IsRunning(n)
+		s.running[n] = w.running(n)
 	}
 	return s
 }
@@ -481,6 +494,9 @@ type c08World struct {
 	mons    []Mon
 	seen    map[string]bool
 	created map[string]bool // objects that appeared during the run (created by a reconcile)
+	infs    *c08Infs
+	ctrls   map[string]*c08Ctrl // controllers started in the current process, by name
+	kill    chan struct{}
 }
 
 func (w *c08World) mon(sig, why string) {
@@ -604,11 +620,54 @@ func (e *c08Engine) Start(name string, o ...engine.ControllerOption) error {
 	return e.t.nonStore("start:"+name, func() error { return e.t.w.eng.Start(name, o...) })
 }
 
+// Stop: under an injected failure the REAL engine.Stop runs while the informers refuse
+// to hand out the informer of the controller's watch, so that stopping that watch fails
+// half-way through Stop (the reconciler sees the error and is requeued).
 func (e *c08Engine) Stop(ctx context.Context, name string) error {
-	return e.t.nonStore("stop:"+name, func() error { return e.t.w.eng.Stop(ctx, name) })
+	w := e.t.w
+	return e.t.nonStoreFailing("stop:"+name, func(fail bool) error {
+		w.infs.fail.Store(fail)
+		err := w.eng.Stop(ctx, name)
+		w.infs.fail.Store(false)
+		if fail && err == nil {
+			// nothing to stop (controller not running): the injected failure is still an error
+			err = fmt.Errorf("c08: injected failure of stop:%s", name)
+		}
+		return err
+	})
 }
 
 func (e *c08Engine) IsRunning(name string) bool { return e.t.w.eng.IsRunning(name) }
+
+// nonStoreFailing is nonStore for a call that performs its own failure: do(true) must
+// fail the way the real component fails, do(false) is the normal call.
+func (t *c08Thread) nonStoreFailing(desc string, do func(fail bool) error) error {
+	o := t.park()
+	if t.w.abandon || t.w.st.Crashed() {
+		return ErrCrashed
+	}
+	t.call = desc
+	switch o {
+	case Fail, Conflict:
+		t.callRes = "other"
+		return do(true)
+	case CrashBefore:
+		t.w.st.crashed = true
+		t.callRes = "crashed"
+		return ErrCrashed
+	case CrashAfter:
+		_ = do(false)
+		t.w.st.crashed = true
+		t.callRes = "crashed"
+		return ErrCrashed
+	}
+	err := do(false)
+	t.callRes = ""
+	if err != nil {
+		t.callRes = "other"
+	}
+	return err
+}
 
 func (e *c08Engine) GetWatches(name string) ([]engine.WatchID, error) {
 	return e.t.w.eng.GetWatches(name)
@@ -650,27 +709,102 @@ func (m *c08Mgr) GetClient() client.Client   { return m.c }
 func (m *c08Mgr) GetScheme() *runtime.Scheme { return m.scheme }
 func (m *c08Mgr) GetLogger() logr.Logger     { return logr.Discard() }
 
-type c08Ctrl struct{}
+// c08Ctrl is the controller-runtime controller the engine starts. Ground truth for
+// "the controller has been stopped": the context the engine passed to Start was
+// cancelled (or the process died).
+type c08Ctrl struct {
+	started chan struct{}
+	ctx     context.Context
+	kill    chan struct{} // closed when the simulated process dies
+}
 
 func (c *c08Ctrl) Reconcile(context.Context, reconcile.Request) (reconcile.Result, error) {
 	return reconcile.Result{}, nil
 }
-func (c *c08Ctrl) Watch(source.Source) error { return nil }
+
+// Watch starts the source like a real controller does (without a work queue), so that the
+// engine's StoppableSource holds a registration that Stop has to remove.
+func (c *c08Ctrl) Watch(src source.Source) error { return src.Start(context.Background(), nil) }
+
 func (c *c08Ctrl) Start(ctx context.Context) error {
-	<-ctx.Done()
+	c.ctx = ctx
+	close(c.started)
+	select {
+	case <-ctx.Done():
+	case <-c.kill:
+	}
 	return nil
 }
 func (c *c08Ctrl) GetLogger() logr.Logger { return logr.Discard() }
 
-func c08NewCtrl(string, manager.Manager, kcontroller.Options) (kcontroller.Controller, error) {
-	return &c08Ctrl{}, nil
+// alive: the controller was started and nobody cancelled it.
+func (c *c08Ctrl) alive() bool {
+	select {
+	case <-c.kill:
+		return false
+	default:
+	}
+	return c.ctx != nil && c.ctx.Err() == nil
 }
 
-func (w *c08World) newEngine(running []string) {
-	w.eng = engine.New(&c08Mgr{c: w.st, scheme: w.st.Scheme()}, nil, w.st, w.st)
-	for _, n := range running {
-		_ = w.eng.Start(n, engine.WithNewControllerFn(c08NewCtrl))
+// fake informers for the engine: GetInformer fails while `fail` is set.
+type c08Informer struct{ cache.Informer }
+
+type c08Reg struct{}
+
+func (c08Reg) HasSynced() bool { return true }
+
+func (c08Informer) AddEventHandler(kcache.ResourceEventHandler) (kcache.ResourceEventHandlerRegistration, error) {
+	return c08Reg{}, nil
+}
+func (c08Informer) RemoveEventHandler(kcache.ResourceEventHandlerRegistration) error { return nil }
+
+type c08Infs struct {
+	cache.Informers
+	fail atomic.Bool
+}
+
+func (i *c08Infs) ActiveInformers() []schema.GroupVersionKind { return nil }
+
+func (i *c08Infs) GetInformer(context.Context, client.Object, ...cache.InformerGetOption) (cache.Informer, error) {
+	if i.fail.Load() {
+		return nil, fmt.Errorf("c08: injected failure: no informer for the watched kind")
 	}
+	return c08Informer{}, nil
+}
+
+// newEngine models a fresh process: a new real engine, every listed controller started
+// with one watch (on XRs resp. claims) whose registration Stop must remove.
+func (w *c08World) newEngine(running []string) {
+	if w.kill != nil {
+		close(w.kill) // controllers of the previous process die with it
+	}
+	w.kill = make(chan struct{})
+	w.ctrls = map[string]*c08Ctrl{}
+	w.infs = &c08Infs{}
+	w.eng = engine.New(&c08Mgr{c: w.st, scheme: w.st.Scheme()}, w.infs, w.st, w.st)
+	for _, n := range running {
+		c := &c08Ctrl{started: make(chan struct{}), kill: w.kill}
+		w.ctrls[n] = c
+		_ = w.eng.Start(n, engine.WithNewControllerFn(func(string, manager.Manager, kcontroller.Options) (kcontroller.Controller, error) {
+			return c, nil
+		}))
+		<-c.started
+		kind := &unstructured.Unstructured{}
+		kind.SetGroupVersionKind(c08XRGVK)
+		if n == claim.ControllerName(c08XRDName) {
+			kind.SetGroupVersionKind(c08ClaimGVK)
+		}
+		if err := w.eng.StartWatches(n, engine.WatchFor(kind, engine.WatchTypeCompositeResource, nil)); err != nil {
+			panic(err)
+		}
+	}
+}
+
+// running is the ground truth: the controller's context has not been cancelled.
+func (w *c08World) running(name string) bool {
+	c, ok := w.ctrls[name]
+	return ok && c.alive()
 }
 
 func c08NewWorld(s c08Scn) *c08World {
@@ -906,6 +1040,10 @@ func (w *c08World) finish() {
 	w.st.crashed = true
 	w.drain()
 	w.stopAll()
+	if w.kill != nil {
+		close(w.kill)
+		w.kill = nil
+	}
 }
 
 // ---------------------------------------------------------------- monitors
